@@ -361,9 +361,9 @@ def judge_c07(case, o, r):
 
     # fit_function(x): scalars, list, array -- and the same again after the history of the case
     # (a returned value switched to Monte Carlo, the result drawn on a plot, ...)
-    forms = ["fit", "fit_list", "fit_array"]
+    forms = ["fit", "fit_list", "fit_array"] + (["fit_npscalar"] if "fit_npscalar" in o else [])
     if "fit@after" in o:
-        forms += ["fit@after", "fit_list@after", "fit_array@after"]
+        forms += ["fit@after", "fit_list@after", "fit_array@after", "fit_npscalar@after"]
     hist = " after the history {}".format(case.get("hist")) if case.get("hist") else ""
     for form in forms:
         ok = True
@@ -396,6 +396,15 @@ def judge_c07(case, o, r):
         fails.append(fail("c07:fit-function-container:" + t, "fit_function of a list/array returned "
                           "{}/{}".format(o["fit_list_type"], o["fit_array_type"]), case,
                           clause="evaluation points as lists and arrays"))
+    # a history of evaluating / drawing / customising returned values moves nothing else either
+    if "chi2@after" in o:
+        for key, what in (("chi2", "chi-squared"), ("res", "the residuals"), ("perr", "the parameter "
+                          "uncertainties"), ("popt", "the parameter values"), ("regcorr", "the registered "
+                          "correlations"), ("str", "the printed result")):
+            if o[key + "@after"] != o[key]:
+                fails.append(fail("c07:moved-by-history:" + key + ":" + t, "{} changed over the history "
+                                  "{}".format(what, case.get("hist")), case, impl=o[key + "@after"],
+                                  expected=o[key], clause="one fit result"))
     # residuals
     if len(o["res"]) != len(case["x"]):
         fails.append(fail("c07:residual-count:" + t, "number of residuals", case,
